@@ -73,11 +73,22 @@ MUTANTS = [
     ("sentinel None", "AegeanTools/cluster.py",
      "has_psf = psf_a is not None and np.isfinite(psf_a)",
      "has_psf = psf_a is not None", "C05-R5"),
+    ("lower shape bound from the beam major axis (seed C05b)",
+     "AegeanTools/source_finder.py",
+     "s_lims = [0.8 * min(sx, pixbeam.b * FWHM2CC),",
+     "s_lims = [0.8 * min(sx, pixbeam.a * FWHM2CC),", "C05-R7"),
+    ("lower shape bound is the catalogued size",
+     "AegeanTools/source_finder.py",
+     "s_lims = [0.8 * min(sx, pixbeam.b * FWHM2CC),",
+     "s_lims = [0.8 * sx,", "C05-R7"),
 ]
 TWINS = [
     ("vary via local", "AegeanTools/source_finder.py",
      'params.add(prefix + "theta", value=theta, vary=stage >= 3)',
      'params.add(prefix + "theta", value=theta, vary=(3 <= stage))'),
+    ("looser lower shape bound", "AegeanTools/source_finder.py",
+     "s_lims = [0.8 * min(sx, pixbeam.b * FWHM2CC),",
+     "s_lims = [0.5 * min(sy, sx, pixbeam.b * FWHM2CC),"),
 ]
 
 
@@ -214,6 +225,7 @@ def run(ctx):
               "each component must carry the PRIORIZED flag", node=z)
     # ---------------------------------------------------------------- R3
     r3(ctx, prog, rf)
+    r7(ctx, prog, rf, adds)
     # ---------------------------------------------------------------- R4
     ctx.rule("C05-R4", "writers of parameter values between params.add and "
              "result_to_components: frame shift by the matching axis offset "
@@ -301,6 +313,156 @@ class _Stores(Observer):
     def on_store(self, it, target, key, val, stmt):
         if key in self.names and it.depth == 0:
             self.vals.setdefault(key, []).append((stmt, val))
+
+
+def _candidates(e):
+    """upper bounds of e obtained by opening Min(...) (e <= every result)"""
+    import sympy as sp
+    if isinstance(e, sp.Min):
+        return [c for a in e.args for c in _candidates(a)]
+    if isinstance(e, sp.Mul):
+        coeff, rest = e.as_coeff_Mul()
+        if coeff.is_positive and isinstance(rest, sp.Min):
+            return [coeff * c for c in _candidates(rest)]
+    return [e]
+
+
+def _independent(fi, name, before):
+    """is the symbol `name` an independent input of the bound expressions:
+    an attribute chain / parameter / the (unpacked) result of a call -- as
+    opposed to a local computed from other values whose definition the
+    translator could not follow"""
+    if name.startswith("v_"):
+        return False
+    defs = []
+    for st in walk_no_nested(fi.node):
+        if isinstance(st, ast.Assign) and st.lineno < before:
+            for t in st.targets:
+                if name in names_in(t) and not (
+                        isinstance(t, (ast.Subscript, ast.Attribute))):
+                    defs.append(st.value)
+        elif isinstance(st, ast.AugAssign) and st.lineno < before and \
+                isinstance(st.target, ast.Name) and st.target.id == name:
+            defs.append(None)
+    for v in defs:
+        if v is None:
+            continue
+        if not isinstance(v, (ast.Call, ast.Attribute, ast.Constant)):
+            return False
+    return True
+
+
+def r7(ctx, prog, rf, adds):
+    """lower shape bound of the refit <= lower shape bound of the blind fit"""
+    import itertools
+    import sympy as sp
+    from .. import sym
+    ctx.rule("C05-R7", "shape bounds of the priorized fit: the lower bound "
+             "given to sx and sy never exceeds the blind fit's lower bound "
+             "(0.8 x the beam's minor axis), so every component the blind "
+             "fit can produce keeps its catalogued shape when it is held "
+             "fixed (lmfit clips a fixed value into [min, max])")
+    blind = None
+    for short in ("source_finder.SourceFinder.estimate_lmfit_parinfo",
+                  "source_finder.estimate_parinfo_image"):
+        if prog.has_func(short):
+            blind = prog.func(short)
+            break
+    if blind is None:
+        raise AnalysisError("C05-R7: blind model builder not found")
+
+    def bound_of(fi, call, which):
+        tr = sym.Translator(prog, prog.modules[fi.module], {},
+                            free_symbols=True)
+        sym.number_locals(tr, fi.node, call.lineno)
+        k = kwarg(call, which)
+        if k is None:
+            return None
+        e = tr.expr(k)
+        # the translator keeps min/max uninterpreted; here their meaning
+        # is what matters
+        e = e.replace(sp.Function("minimum"), sp.Min)
+        return e.replace(sp.Function("maximum"), sp.Max)
+
+    def add_call(fi, sfx):
+        for c in walk_no_nested(fi.node):
+            if isinstance(c, ast.Call) and \
+                    isinstance(c.func, ast.Attribute) and \
+                    c.func.attr == "add" and c.args and \
+                    isinstance(c.args[0], ast.BinOp) and \
+                    isinstance(c.args[0].right, ast.Constant) and \
+                    c.args[0].right.value == sfx:
+                return c
+        return None
+    n = 0
+    for sfx in ("sx", "sy"):
+        bc = add_call(blind, sfx)
+        if bc is None:
+            raise AnalysisError("C05-R7: params.add(%s) not found in %s" %
+                                (sfx, blind.short))
+        try:
+            lb = bound_of(blind, bc, "min")
+            lr = bound_of(rf, adds[sfx], "min")
+        except (sym.Untranslatable, TypeError, AttributeError) as e:
+            raise AnalysisError("C05-R7: bounds of %s: %s" % (sfx, e))
+        if lr is None:
+            n += 1
+            ctx.check("C05-R7", rf, "no lower bound on " + sfx, True, "",
+                      node=adds[sfx])
+            continue
+        if lb is None:
+            raise AnalysisError("C05-R7: blind fit has no lower bound on "
+                                + sfx)
+        # all quantities are positive lengths; beam major >= beam minor
+        free = sorted((lb.free_symbols | lr.free_symbols),
+                      key=lambda x: x.name)
+        pos = {x: sp.Symbol(x.name, positive=True) for x in free}
+        maj = [x for x in free if x.name.endswith("_a")]
+        for x in maj:
+            mn = next((y for y in free
+                       if y.name == x.name[:-2] + "_b"), None)
+            if mn is not None:
+                pos[x] = pos[mn] + sp.Symbol(x.name + "_minus_b",
+                                             nonnegative=True)
+        lbp, lrp = lb.subs(pos), lr.subs(pos)
+        proved = any(sp.simplify(c - lbp).is_nonpositive
+                     for c in _candidates(lrp))
+        witness = None
+        opaque = [x.name for x in free if not _independent(rf, x.name,
+                                                           adds[sfx].lineno)
+                  and x in lr.free_symbols]
+        if not proved and opaque:
+            ctx.unknown_site("C05-R7", rf, "lower bound of %s depends on "
+                             "%s whose definition was not translated" %
+                             (sfx, opaque), node=adds[sfx])
+            continue
+        if not proved:
+            syms = sorted((lbp.free_symbols | lrp.free_symbols),
+                          key=lambda x: x.name)
+            grid = (sp.Rational(1, 2), 1, 3, 10)
+            for vals in itertools.product(grid, repeat=len(syms)):
+                env = dict(zip(syms, vals))
+                try:
+                    if (lrp.subs(env) - lbp.subs(env)) > 0:
+                        witness = {str(k): str(v) for k, v in env.items()}
+                        break
+                except TypeError:
+                    continue
+            if witness is None:
+                ctx.unknown_site("C05-R7", rf, "lower bound of %s: %s vs "
+                                 "blind %s neither proved nor refuted" %
+                                 (sfx, lr, lb), node=adds[sfx])
+                continue
+        n += 1
+        ctx.check("C05-R7", rf, "lower bound of %s: %s <= blind %s" %
+                  (sfx, lr, lb), proved,
+                  "the priorized fit bounds %s below by %s, which exceeds "
+                  "the blind fit's bound %s for %s: a catalogued source with "
+                  "a smaller %s is clipped up to the bound although the "
+                  "parameter is held fixed, and its flux is measured with "
+                  "the wrong shape" % (sfx, lr, lb, witness, sfx),
+                  node=adds[sfx])
+    ctx.floor("C05-R7", n, 2, "shape bounds compared with the blind fit")
 
 
 def r3(ctx, prog, rf):
